@@ -354,18 +354,8 @@ def load_reference():
 
 
 def _select(pm, patterns):
-    import re
-    pats = [re.compile(p) for p in patterns]
-    funcs = [f for q, f in sorted(pm.functions.items()) if any(p.search(q) for p in pats)]
-    out = []
-
-    def add(f):
-        out.append(f)
-        for g in f.nested.values():
-            add(g)
-    for f in funcs:
-        add(f)
-    return out
+    from .ownership import select
+    return select(pm, patterns)
 
 
 _CACHE = {}
